@@ -286,6 +286,10 @@ pub struct Conn {
     /// with benign header values)
     #[serde(default)]
     pub twin: Option<usize>,
+    /// a revalidating client: before sending, the validators the server gave on that earlier
+    /// connection (ETag, Last-Modified) are added as If-None-Match / If-Modified-Since
+    #[serde(default)]
+    pub revalidate: Option<usize>,
 }
 
 impl Conn {
@@ -299,6 +303,7 @@ impl Conn {
             faults: Faults::default(),
             class: class.to_string(),
             twin: None,
+            revalidate: None,
         }
     }
     pub fn strict(&self) -> bool {
